@@ -262,10 +262,14 @@ def impl(case):
         r = C.call(vd.coordinates.check_region, a[0])
         return r if C.is_err(r) else [float(v) for v in a[0]]
     if fn == "scatter":
-        r = C.call(vd.scatter_points, a[0], a[1], random_state=a[2], extra_coords=a[3])
+        # the seed arrives as a Python int, a NumPy integer of some width (what np.arange / randint hand out) or a RandomState made from it:
+        # the same points every time
+        forms = [lambda s_: s_, np.int64, lambda s_: np.random.RandomState(s_), np.uint32, np.int32]
+        k_ = (a[1] + a[2]) % len(forms)
+        r = C.call(vd.scatter_points, a[0], a[1], random_state=forms[k_](a[2]), extra_coords=a[3])
         if C.is_err(r):
             return r
-        r2 = vd.scatter_points(a[0], a[1], random_state=a[2], extra_coords=a[3])
+        r2 = vd.scatter_points(a[0], a[1], random_state=forms[(k_ + 1) % len(forms)](a[2]), extra_coords=a[3])
         if any(not np.array_equal(x, y) for x, y in zip(r, r2)):
             return ["err", "NotReproducible"]
         return [np.asarray(v).tolist() for v in r]
